@@ -33,6 +33,34 @@ fn decode_n<const N: usize>() {
     kani::cover!(N == 0 || pos == N, "no newline");
     core::mem::forget(src);
 }
+/// a run of K carriage returns before the newline: exactly ONE is stripped. The shape of the input is fixed (so every loop in
+/// the decoder has a concrete trip count and a data-dependent loop in a changed decoder stays decidable), the bytes around it
+/// are symbolic: [x] CR^K LF [y]  ->  line = [x] CR^(K-1), remainder = [y]
+fn decode_cr_run<const K: usize>() {
+    // x ranges over two ASCII bytes only (an if-then-else of constants folds away in every comparison with CR / LF)
+    let x: u8 = if kani::any() { b'a' } else { 0x7f }; let y: u8 = kani::any();
+    let mut buf = [b'\r'; 8];
+    buf[0] = x; buf[1 + K] = b'\n'; buf[2 + K] = y;
+    let n = K + 3;
+    let mut src = BytesMut::with_capacity(16);
+    src.extend_from_slice(&buf[..n]);
+    let mut c = LinesCodec::default();
+    match c.decode(&mut src) {
+        Ok(Some(s)) => {
+            assert!(s.len() == K, "line = bytes before the first newline minus ONE trailing CR");
+            let b = s.as_bytes(); assert!(b[0] == x, "first byte kept");
+            let mut i = 1; while i < K { assert!(b[i] == b'\r', "the other carriage returns belong to the line"); i += 1; }
+            assert!(src.len() == 1 && src[0] == y, "consumed exactly up to and including the newline");
+            kani::cover!(true, "line with a run of carriage returns");
+            core::mem::forget(s);
+        }
+        _ => assert!(false, "an ASCII line followed by a newline decodes to a line"),
+    }
+    core::mem::forget(src);
+}
+#[kani::proof] #[kani::unwind(10)] fn c15_decode_cr_run_1() { decode_cr_run::<1>() }
+#[kani::proof] #[kani::unwind(10)] fn c15_decode_cr_run_2() { decode_cr_run::<2>() }
+#[kani::proof] #[kani::unwind(10)] fn c15_decode_cr_run_3() { decode_cr_run::<3>() }
 #[kani::proof] #[kani::unwind(10)] fn c15_decode_0() { decode_n::<0>() }
 #[kani::proof] #[kani::unwind(10)] fn c15_decode_1() { decode_n::<1>() }
 #[kani::proof] #[kani::unwind(10)] fn c15_decode_2() { decode_n::<2>() }
